@@ -547,6 +547,32 @@ func (c *CEnv) evalCall(e *CExpr) Val {
 		}
 		_, val := g.mapArrays(c.st, mt)
 		return Val{fmt.Sprintf("(select (select %s %s) %s)", val, m.T, k.T), mt.Elem(), sortOf(mt.Elem())}
+	case "reMatches":
+		// reMatches(v, s): the package-level constant regexp v matches s (the predicate v.MatchString(s) is lowered to)
+		if len(e.Args) != 2 || e.Args[0].Op != "id" {
+			c.fail("reMatches(<package-level regexp>, s)")
+		}
+		obj := c.pkg.Types.Scope().Lookup(e.Args[0].Name)
+		if obj == nil {
+			c.fail("reMatches: no package-level variable %s", e.Args[0].Name)
+		}
+		fn := "reMatch_" + pkgShort(c.pkg.Types) + "_" + obj.Name()
+		g.declFun(fn, []string{"Bytes"}, "Bool")
+		return Val{fmt.Sprintf("(%s %s)", fn, arg(1).T), boolT, "Bool"}
+	case "seqAppend":
+		// the sequence append(s, x) builds
+		a, x := arg(0), arg(1)
+		if !strings.HasPrefix(a.S, "(Sq ") {
+			c.fail("seqAppend on %s", a.S)
+		}
+		return Val{fmt.Sprintf("(mkseq (+ (slen %s) 1) (store (selems %s) (slen %s) %s))", a.T, a.T, a.T, x.T), a.Ty, a.S}
+	case "emptyStrings":
+		// the empty sequence of strings / byte strings
+		return Val{zeroOf("(Sq Bytes)"), types.NewSlice(types.Typ[types.String]), "(Sq Bytes)"}
+	case "emptyLike":
+		// the empty (nil) sequence of the argument's type
+		a := arg(0)
+		return Val{zeroOf(a.S), a.Ty, a.S}
 	case "seqEq":
 		// extensional equality of two sequences
 		a, b := arg(0), arg(1)
@@ -690,6 +716,11 @@ func (c *CEnv) applyGhost(pk *packages.Package, gh *Ghost, e *CExpr) Val {
 	}
 	rt := pe.resolveType(gh.Result)
 	sym := ghostSym(short, gh.Name)
+	if g.declSeen[sym] && g.lemmaPkg != "" {
+		// while the lemmas of a package are proved in turn, each one may use the lemmas stated before it: those about
+		// a ghost function already declared for an earlier lemma are emitted now
+		g.emitGhostAxioms(pk, gh.Name)
+	}
 	if !g.declSeen[sym] {
 		g.declFun(sym, argSorts, sortOf(rt))
 		g.emitGhostAxioms(pk, gh.Name)
